@@ -1,6 +1,6 @@
 """C09 -- operators refuse invalid inputs (guards)."""
 from ..core import Ctx, Ob, PropSpec
-from ..rules import r7d, r8, extra
+from ..rules import r7d, r8, r14, extra
 
 
 def run(ctx: Ctx) -> list[Ob]:
@@ -21,6 +21,8 @@ def run(ctx: Ctx) -> list[Ob]:
     obs += extra.multiply_refusals(ctx)
     # the refusals are only as good as the predicates they consult
     obs += r7d.r7d(ctx)
+    obs += r14.product_input_order(ctx)
+    obs += r8.scope_membership(ctx, "cirkit.backend.torch.queries.IntegrateQuery.scopes_to_mask", "out-of-scope:membership")
     return obs
 
 
@@ -38,8 +40,9 @@ SPEC = PropSpec(
         "guards consult say what they must -- is_smooth / is_decomposable quantify over every sum input / every unordered pair of "
         "product inputs, and _are_compatible refuses a common scope that either side factorizes in more than one way (otherwise "
         "integrate / multiply accept operands they have to refuse)."
+        " R14g: the product of two product layers pairs the inputs by scope rank and lists them in the first layer's declared order (products stay compatible with both operands only if the pairing is by scope). R8m: the refusal of variables outside the scope (IntegrateQuery.scopes_to_mask) is a membership test on the circuit's scope as a set, not a bound on the largest id -- ids in a gap of the scope are invalid too."
     ),
     not_decided="the 'results keep the promised structure' clause (structural flags of generated circuits are run-time facts) -- not claimed.",
     run=run,
-    floors={"R8": 28, "R7d": 5},
+    floors={"R14g": 1, "R8m": 1, "R8": 28, "R7d": 5},
 )
